@@ -186,16 +186,21 @@ class C20Session(Session):
                     continue  # alternate to bound the cost
                 kw = {"style_" + leaf: own(v, leaf) for leaf, v in kw_items}
                 show_kw = {leaf: v for leaf, v in kw_items}
-                with warnings.catch_warnings():
-                    warnings.simplefilter("ignore")
-                    st = flat(get_style(o, self._settings(), **kw))
+                try:
+                    with warnings.catch_warnings():
+                        warnings.simplefilter("ignore")
+                        st = flat(get_style(o, self._settings(), **kw))
+                except Exception as e:
+                    raise Violation("valid_show_kwarg_rejected", f"resolving the style of object {i} ({M.cls[i]}) with "
+                                    f"show keywords {sorted(kw)} raised {type(e).__name__}",
+                                    leaf=_sigleaf(kw_items[0][0]) if kw_items else None, **sig) from None
                 self.stats["resolutions"] += 1
                 if kw_items:
                     self.probe("resolution_with_show_kwarg")
                     if any(M.S[i].get(leaf) is not None for leaf, _ in kw_items):
                         self.probe("show_kwarg_overrides_object_value")
                 for leaf in M.S[i]:
-                    if leaf.startswith(SKIP_RESOLVE) or sm.is_alias(leaf):
+                    if (leaf.startswith(SKIP_RESOLVE) and not (leaf == "label" and leaf in show_kw)) or sm.is_alias(leaf):
                         continue
                     want = M.effective(i, leaf, show_kw)
                     got = st.get(leaf, "<missing>")
@@ -742,7 +747,8 @@ class Sim:
         M = sess.model
         for i in range(len(M.S)):
             if rng.random() < cfg["p_probe"]:
-                leaves = [k for k in self._leaves(M.S[i]) if not k.startswith(SKIP_RESOLVE) and not sm.is_alias(k)]
+                leaves = [k for k in self._leaves(M.S[i]) if (not k.startswith(SKIP_RESOLVE) or k == "label")
+                          and not sm.is_alias(k)]
                 if leaves:
                     leaf = rng.choice(leaves)
                     out[str(i)] = [[leaf, rng.choice(sm.VALID[sm.kind_of(leaf)])]]
